@@ -260,22 +260,25 @@ LoopNext ==
 \* ========================================================================
 Init ==
     /\ shapes = <<>> /\ nextID = 0 /\ pendPos = 0 /\ status = "fresh" /\ indexed = {}
-    /\ epoch = 0 /\ cpq = -1 /\ ceq = -1
+    \* Mode = "eq1": the eq machine after one replacement of the geometry ({S2, S3} indexed); the
+    \* replacement is the first step of every history, so short exhaustive explorations cover both.
+    /\ epoch = IF Mode = "eq1" THEN 1 ELSE 0
+    /\ cpq = -1 /\ ceq = -1
     /\ eff = UserOpts
     /\ inv = [o \in Objs |-> 0]
     /\ lidx = [o \in Objs |-> [status |-> "stale", pend |-> 0, indexed |-> {}]]
-    /\ h = <<>>
+    /\ h = IF Mode = "eq1" THEN <<[a |-> "SwitchGeo", q |-> "-", x |-> "-", r |-> "-"]>> ELSE <<>>
 
 Finish ==
     /\ Len(h) = MaxLen
-    /\ PrintT(<<"HIST", ToJson([op |-> "c13." \o (IF Mode \in {"index-q", "index-ceq"} THEN "index" ELSE Mode), steps |-> h])>>)
+    /\ PrintT(<<"HIST", ToJson([op |-> "c13." \o (IF Mode \in {"index-q", "index-ceq"} THEN "index" ELSE IF Mode = "eq1" THEN "eq" ELSE Mode), steps |-> h])>>)
     /\ UNCHANGED vars
 
 Next ==
     \/ /\ Len(h) < MaxLen
        /\ \/ Mode = "index" /\ IndexNext
           \/ Mode \in {"index-q", "index-ceq"} /\ IndexQNext
-          \/ Mode = "eq" /\ EqNext
+          \/ Mode \in {"eq", "eq1"} /\ EqNext
           \/ Mode = "loop" /\ LoopNext
     \/ Finish
 
